@@ -413,8 +413,10 @@ ALL_KINDS = ["Identity", "TimeLimit", "ClipAction", "RescaleAction", "TransformA
 
 
 def compatible(kind: str, a: dict, o: dict) -> bool:
-    fin_a = a["kind"] == "box" and a["lo"] > -INF and a["hi"] < INF
-    fin_o = o["kind"] == "box" and o["lo"] > -INF and o["hi"] < INF and o["hi"] > o["lo"]
+    # "bounded" for the affine rescales: an unbounded side shifted by a Transform* wrapper (INF - c) is still unbounded, and the
+    # specification's 32-bit integers would overflow on (a - lo) * (hi - lo) there
+    fin_a = a["kind"] == "box" and a["lo"] > -INF // 2 and a["hi"] < INF // 2
+    fin_o = o["kind"] == "box" and o["lo"] > -INF // 2 and o["hi"] < INF // 2 and o["hi"] > o["lo"]
     if kind == "ClipAction":
         return a["kind"] == "box"
     if kind == "RescaleAction":
@@ -463,7 +465,9 @@ def gen_stack(rng: random.Random, cfg: dict, depth: int, kinds=None, force_tl: f
     stack = []
     kinds = kinds or ALL_KINDS
     for _ in range(depth):
-        ok = [k for k in kinds if compatible(k, a, o)]
+        # (one affine rescale per signal and stack: the parameters of a rescale are chosen so that every grid value has an exact
+        # image; the image grid of a first rescale no longer guarantees that for a second one)
+        ok = [k for k in kinds if compatible(k, a, o) and not (k.startswith("Rescale") and any(w["kind"] == k for w in stack))]
         if not ok:
             break
         k = "TimeLimit" if rng.random() < force_tl else rng.choice(ok)
